@@ -83,6 +83,8 @@ type hist19 struct {
 	// op RestartAt and compare the later replies (restart refinement on the implementation)
 	// RestartAt == -2: insert the restart right after the first operation during which a fault was delivered
 	RestartAt int `json:"restart_at"`
+	// Minimal: the server is built by samlidp.New with every optional Option unset (default logger etc.)
+	Minimal bool `json:"minimal_options,omitempty"`
 }
 
 type obs19 struct {
@@ -200,6 +202,8 @@ type world19 struct {
 	clock    int64
 	abs2real map[string]string
 	real2abs map[string]string
+	minimal  bool
+	dead     string            // set when a (re)start hung or failed: the rest of the history is not run
 	svcEnt   map[string]string // ghost: stored service id -> entity ID (for the duplicate-entity class)
 	dup      bool
 }
@@ -215,6 +219,12 @@ func (w *world19) absID(r string) string {
 		return a
 	}
 	return r
+}
+
+func (w *world19) storeKeys() string {
+	ks, _ := w.fs.inner.List("/")
+	sort.Strings(ks)
+	return strings.Join(ks, " ")
 }
 
 func profJSON(n string, bodyName *string, pw *string, p *prof) string {
@@ -281,33 +291,47 @@ func (w *world19) exec(o hop19) obs19 {
 		return obs19{Body: "none"}
 	case "restart":
 		w.fs.enabled = false
-		srv, err := newServer(w.fs)
+		srv, err, hung, pn := startServer(w.fs, w.minimal)
 		w.fs.enabled = true
-		if err != nil {
-			return obs19{Body: "none", Panic: "New over the same store failed: " + err.Error()}
+		switch {
+		case hung:
+			w.dead = fmt.Sprintf("samlidp.New over the same store did not return within %s (store keys: %s)", startupDeadline, w.storeKeys())
+		case pn != nil:
+			w.dead = fmt.Sprintf("samlidp.New over the same store panicked: %v (store keys: %s)", pn, w.storeKeys())
+		case err != nil:
+			w.dead = fmt.Sprintf("samlidp.New over the same store failed: %v (store keys: %s)", err, w.storeKeys())
+		}
+		if w.dead != "" {
+			return obs19{Body: "none", Panic: w.dead}
 		}
 		w.srv = srv
 		return obs19{Body: "none"}
 	case "putuser":
-		q = reqSpec{method: "PUT", path: "/users/" + o.Name, body: profJSON(o.Name, o.BodyName, o.PW, o.Prof)}
+		q = reqSpec{method: "PUT", path: "/users/" + escSeg(o.Name), body: profJSON(o.Name, o.BodyName, o.PW, o.Prof)}
 	case "deluser":
-		q = reqSpec{method: "DELETE", path: "/users/" + o.Name}
+		q = reqSpec{method: "DELETE", path: "/users/" + escSeg(o.Name)}
 	case "getuser":
-		q = reqSpec{method: "GET", path: "/users/" + o.Name}
+		q = reqSpec{method: "GET", path: "/users/" + escSeg(o.Name)}
 	case "listusers":
 		q = reqSpec{method: "GET", path: "/users/"}
+	case "listservices":
+		q = reqSpec{method: "GET", path: "/services/"}
+	case "listshortcuts":
+		q = reqSpec{method: "GET", path: "/shortcuts/"}
+	case "listsessions":
+		q = reqSpec{method: "GET", path: "/sessions/"}
 	case "putservice":
-		q = reqSpec{method: "PUT", path: "/services/" + o.Name, body: spMetadataXML(o.MD.Entity, o.MD.ACS)}
+		q = reqSpec{method: "PUT", path: "/services/" + escSeg(o.Name), body: spMetadataXML(o.MD.Entity, o.MD.ACS)}
 	case "delservice":
-		q = reqSpec{method: "DELETE", path: "/services/" + o.Name}
+		q = reqSpec{method: "DELETE", path: "/services/" + escSeg(o.Name)}
 	case "putshortcut":
 		body := `{"service_provider":` + jsonStr(o.SP) + `}`
 		if o.BodyName != nil && *o.BodyName != "<absent>" {
 			body = `{"name":` + jsonStr(*o.BodyName) + `,"service_provider":` + jsonStr(o.SP) + `}`
 		}
-		q = reqSpec{method: "PUT", path: "/shortcuts/" + o.Name, body: body}
+		q = reqSpec{method: "PUT", path: "/shortcuts/" + escSeg(o.Name), body: body}
 	case "delshortcut":
-		q = reqSpec{method: "DELETE", path: "/shortcuts/" + o.Name}
+		q = reqSpec{method: "DELETE", path: "/shortcuts/" + escSeg(o.Name)}
 	case "login":
 		q = reqSpec{method: "POST", path: "/login", form: form(), cookie: cookie}
 	case "sso":
@@ -315,14 +339,14 @@ func (w *world19) exec(o hop19) obs19 {
 		f.Set("SAMLRequest", authnRequestB64(o.Issuer, o.ACS, "id-req", clockBase.Add(time.Duration(w.clock)*time.Second)))
 		q = reqSpec{method: "POST", path: "/sso", form: f, cookie: cookie}
 	case "launch":
-		q = reqSpec{method: "GET", path: "/login/" + o.Name, cookie: cookie}
+		q = reqSpec{method: "GET", path: "/login/" + escSeg(o.Name), cookie: cookie}
 		if o.User != "" {
 			q.method, q.form = "POST", form() // form credentials on the IdP-initiated URL
 		}
 	case "getsess":
-		q = reqSpec{method: "GET", path: "/sessions/" + url.PathEscape(w.realID(o.Name))}
+		q = reqSpec{method: "GET", path: "/sessions/" + escSeg(w.realID(o.Name))}
 	case "delsession":
-		q = reqSpec{method: "DELETE", path: "/sessions/" + url.PathEscape(w.realID(o.Name))}
+		q = reqSpec{method: "DELETE", path: "/sessions/" + escSeg(w.realID(o.Name))}
 	default:
 		panic("unknown op " + o.Kind)
 	}
@@ -399,13 +423,19 @@ func (w *world19) exec(o hop19) obs19 {
 		ob.Body = "empty"
 	default:
 		switch o.Kind {
-		case "listusers":
-			var l struct {
-				Users []string `json:"users"`
-			}
+		case "listusers", "listservices", "listshortcuts", "listsessions":
+			var l map[string][]string
 			if json.Unmarshal([]byte(body), &l) == nil {
-				ob.Body, ob.Names = "names", l.Users
-				sort.Strings(ob.Names)
+				if ks, ok := l[strings.TrimPrefix(o.Kind, "list")]; ok && len(l) == 1 {
+					ob.Body, ob.Names = "names", []string{}
+					for _, k := range ks {
+						if o.Kind == "listsessions" {
+							k = w.absID(k)
+						}
+						ob.Names = append(ob.Names, k)
+					}
+					sort.Strings(ob.Names)
+				}
 			}
 		case "getuser":
 			var u samlidp.User
@@ -443,18 +473,23 @@ func runHistory(h hist19, seed int64, restartAt int) ([]obs19, int, bool, int) {
 		abs2real: map[string]string{}, real2abs: map[string]string{}, svcEnt: map[string]string{}}
 	saml.TimeNow = func() time.Time { return clockBase.Add(time.Duration(w.clock) * time.Second) }
 	saml.RandReader = seededReader{rand.New(rand.NewSource(seed))}
+	w.minimal = h.Minimal
 	w.fs.enabled = false
-	srv, err := newServer(w.fs)
+	srv, err, hung, pn := startServer(w.fs, w.minimal)
 	w.fs.enabled = true
-	if err != nil {
-		panic(err)
+	if err != nil || hung || pn != nil {
+		panic(fmt.Sprint("samlidp.New over an empty store: ", err, hung, pn))
 	}
 	w.srv = srv
 	var out []obs19
 	firstFault := -1
 	for i, o := range h.Ops {
-		if i == restartAt {
+		if i == restartAt && w.dead == "" {
 			w.exec(hop19{Kind: "restart"})
+		}
+		if w.dead != "" { // the server never came (back) up: nothing more can be observed
+			out = append(out, obs19{Body: "none", Panic: w.dead})
+			continue
 		}
 		out = append(out, w.exec(o))
 		if w.fs.faulted && firstFault < 0 {
@@ -627,7 +662,7 @@ func genHistory(r *rand.Rand, maxLen int, dupOK bool) hist19 {
 		case x < 16:
 			o = hop19{Kind: "getuser", Name: pick(r, []string{"alice", "bob", "carol"})}
 		case x < 18:
-			o = hop19{Kind: "listusers"}
+			o = hop19{Kind: pick(r, []string{"listusers", "listusers", "listservices", "listshortcuts", "listsessions"})}
 		case x < 30:
 			id := pick(r, []string{"a", "b"})
 			m := pick(r, mdFor[id])
@@ -736,6 +771,37 @@ func genHistory(r *rand.Rand, maxLen int, dupOK bool) hist19 {
 		}
 	}
 	return h
+}
+
+// hostile name sets: each maps the plain names of the generators to names that stress the
+// key <-> name correspondence of the store
+var hostileNames = []map[string]string{
+	{"alice": "al/ice", "bob": "bob/", "carol": "car%2Fol", "a": "apps/crm", "b": "https://wiki.example.com/saml2/metadata", "x": "go/to", "y": "é/ü", "z": ".."},
+	{"alice": "../alice", "bob": "b.b/.", "carol": "c", "a": "a/", "b": "a", "x": "x/..", "y": "x", "z": "%"},
+	{"alice": "a b+c", "bob": "services/a", "carol": "c/", "a": "users/alice", "b": "b/b/b", "x": ".", "y": "..", "z": "./x"},
+}
+
+func renameHostile(h hist19, variant int) hist19 {
+	m := hostileNames[variant%len(hostileNames)]
+	ren := func(s string) string {
+		if r, ok := m[s]; ok {
+			return r
+		}
+		return s
+	}
+	out := hist19{Plan: h.Plan, Class: "hostile_names", RestartAt: h.RestartAt, Minimal: h.Minimal}
+	for _, o := range h.Ops {
+		switch o.Kind {
+		case "putuser", "deluser", "getuser", "putservice", "delservice", "putshortcut", "delshortcut", "launch":
+			o.Name = ren(o.Name)
+		}
+		o.User = ren(o.User)
+		if o.BodyName != nil && *o.BodyName != "<absent>" {
+			o.BodyName = sp(ren(*o.BodyName))
+		}
+		out.Ops = append(out.Ops, o)
+	}
+	return out
 }
 
 func putUser(u string, pw *string, pi int) hop19 {
@@ -880,7 +946,13 @@ func opTerm(o hop19) string {
 	case "getuser":
 		return "GetUser " + emit.Str(o.Name)
 	case "listusers":
-		return "ListUsers"
+		return "ListKeys CUsers"
+	case "listservices":
+		return "ListKeys CServices"
+	case "listshortcuts":
+		return "ListKeys CShortcuts"
+	case "listsessions":
+		return "ListKeys CSessions"
 	case "putservice":
 		return fmt.Sprintf("PutService %s (mkmd %s %s)", emit.Str(o.Name), emit.Str(o.MD.Entity), emit.StrList(o.MD.ACS))
 	case "delservice":
@@ -1028,6 +1100,53 @@ func runC19(c *Ctx) {
 	}
 	for i := 0; i < nRandom; i++ {
 		hs = append(hs, genHistory(c.Rng, maxLen, false))
+	}
+	// names from a hostile alphabet (slashes, trailing slash, dot segments, percent signs, non-ASCII) for every
+	// store-backed collection, in histories with listings and restarts: keys are /<kind>/<name>, and a name must
+	// survive Put / Get / List / start-up unchanged
+	nDirected := len(hs)
+	for i := 0; i < nDirected; i++ {
+		switch hs[i].Class {
+		case "registration", "restart", "snapshot", "password_update", "body_vs_url", "deleted_session":
+			hs = append(hs, renameHostile(hs[i], i))
+		}
+	}
+	hostile := []hop19{putUser("alice", sp(pw1), 0), loginPw("alice", pw1), putSvc("a", md1), putSvc("b", md2),
+		{Kind: "putshortcut", Name: "x", SP: e1}, {Kind: "putshortcut", Name: "y", SP: e2},
+		{Kind: "listservices"}, {Kind: "listshortcuts"}, {Kind: "listusers"}, {Kind: "listsessions"},
+		ssoCookie(e1, acs1, "S0"), ssoCookie(e2, acs2, "S0"), launchCk("x", "S0"), {Kind: "restart"},
+		{Kind: "listservices"}, {Kind: "listshortcuts"}, {Kind: "listusers"}, {Kind: "listsessions"},
+		ssoCookie(e1, acs1, "S0"), ssoCookie(e2, acs2, "S0"), launchCk("x", "S0"), launchCk("y", "S0"),
+		{Kind: "getuser", Name: "alice"}, {Kind: "delservice", Name: "a"}, {Kind: "restart"}, {Kind: "listservices"},
+		ssoCookie(e1, acs1, "S0"), ssoCookie(e2, acs2, "S0"), {Kind: "deluser", Name: "alice"}, {Kind: "delshortcut", Name: "x"},
+		{Kind: "listusers"}, {Kind: "listshortcuts"}}
+	for v := 0; v < len(hostileNames); v++ {
+		h := renameHostile(hist19{Ops: hostile, Class: "hostile_names", RestartAt: 10}, v)
+		hs = append(hs, h)
+	}
+	hs = append(hs, hist19{Ops: hostile, Class: "listings", RestartAt: 10})
+	nHostile := 30
+	if c.Thorough() {
+		nHostile = 400
+	}
+	for i := 0; i < nHostile; i++ {
+		h := genHistory(c.Rng, 20, false)
+		h.RestartAt = 1 + c.Rng.Intn(len(h.Ops))
+		hs = append(hs, renameHostile(h, i))
+	}
+	// the server built with every optional Option unset (default logger, ...): same histories, same replies
+	for i := 0; i < nDirected; i++ {
+		switch hs[i].Class {
+		case "registration", "restart", "bad_credentials", "deleted_session", "expiry":
+			h := hs[i]
+			h.Minimal, h.Class = true, "minimal_options"
+			hs = append(hs, h)
+		}
+	}
+	for i := nDirected; i < len(hs); i += 7 {
+		if hs[i].Class == "random" {
+			hs[i].Minimal = true
+		}
 	}
 	// restart refinement on the implementation: sampled insertion points (every position in thorough, on short histories)
 	for i := 0; i < nRestart; i++ {
